@@ -240,3 +240,63 @@ class IdenticalPath(Contract):
 
 
 CONTRACTS = [DocSyncUpdate(), ByKeyInit(), AskCall(), DeepPhase3(), IdenticalPath()]
+
+
+# ============================================================================= Job.sync / Project.sync: direction and option forwarding
+
+
+class Tk2(Sym):
+    def __init__(self, name):
+        self.name = name
+
+    def __repr__(self):
+        return f"<{self.name}>"
+
+
+class SyncFrontEnd(Contract):
+    """x.sync(other, ...) synchronises FROM other INTO x and hands every option on unchanged"""
+    properties = ("C13", "C15")
+
+    def __init__(self, owner, callee, src_name, dst_name, opts):
+        self.owner, self.callee, self.src_name, self.dst_name, self.opts = owner, callee, src_name, dst_name, opts
+        self.target = f"{owner}.sync"
+        super().__init__()
+
+    def make_ctx(self, case):
+        ctx = super().make_ctx(case)
+        g = ctx.ghost
+        g["res"] = Tk2("result")
+
+        def stub(interp, b):
+            g["got"] = dict(b)
+            return g["res"]
+        ctx.callee_contracts[self.callee] = stub
+        return ctx
+
+    def setup(self, interp, case):
+        rp = interp.repo
+        rp.load(self.owner.rsplit(".", 1)[0])
+        o = Obj(rp.classes[self.owner])
+        other = Tk2("other")
+        kw = {k: Tk2(k) for k in self.opts}
+        for extra in ("deep", "dry_run"):       # options that reach the callee through **kwargs
+            kw[extra] = Tk2(extra)
+        return [o, other], kw, {"o": o, "other": other, "kw": kw}
+
+    def post(self, interp, case, pre, outcome):
+        ex, g = interp.ex, interp.ctx.ghost
+        got = g.get("got")
+        ok = outcome[0] == "return" and got is not None
+        if ok:
+            flat = {k: v for k, v in got.items() if k != "kwargs"}
+            flat.update(got.get("kwargs") or {})
+            ex.oblige(self.oname("ensures:the_other_side_is_the_source_and_this_one_the_destination"),
+                      z3.BoolVal(flat.get(self.src_name) is pre["other"] and flat.get(self.dst_name) is pre["o"]), note=repr({k: flat.get(k) for k in (self.src_name, self.dst_name)}))
+            rest = {k: v for k, v in flat.items() if k not in (self.src_name, self.dst_name)}
+            ex.oblige(self.oname("ensures:every_option_is_handed_on_unchanged"), z3.BoolVal(set(rest) >= set(pre["kw"]) and all(rest[k] is v for k, v in pre["kw"].items())), note=repr(rest)[:300])
+        else:
+            ex.oblige(self.oname("ensures:the_synchronisation_function_is_called"), False, note=repr(outcome))
+
+
+CONTRACTS += [SyncFrontEnd("signac.job.Job", f"{SY}.sync_jobs", "src", "dst", ("strategy", "exclude", "doc_sync")),
+              SyncFrontEnd("signac.project.Project", f"{SY}.sync_projects", "source", "destination", ("strategy", "exclude", "doc_sync", "selection"))]
